@@ -702,3 +702,165 @@ pub fn run(mode: &str, out_path: &str, count: usize) -> Report {
     }
     rep
 }
+
+// ------------------------------------------------------------------------------------------
+// paired fits: two problems that must behave alike along a whole fit (C06, C07, C11)
+// ------------------------------------------------------------------------------------------
+struct FitFacts<T: Sc> {
+    ok: bool,
+    term: String,
+    nfev: usize,
+    params: Vec<T>,
+    coeffs: Option<DMatrix<T>>,
+    chi2_cov: Option<(T, DMatrix<T>)>,
+}
+fn fit_facts<T: Sc>(rs: &RunSpec<T>, stats: bool) -> Option<FitFacts<T>> {
+    let prob = make_problem(rs, &rs.start, None).ok()?;
+    let pool = rayon::ThreadPoolBuilder::new().num_threads(rs.threads.max(1)).build().unwrap();
+    pool.install(|| {
+        if stats && !rs.mrhs {
+            let o = prob.fit_stats(&rs.cfg, &[], &[])?;
+            Some(FitFacts {
+                ok: o.fit.ok,
+                term: o.fit.termination.clone(),
+                nfev: o.fit.nfev,
+                params: o.fit.fin.params.clone(),
+                coeffs: o.fit.fin.coeffs.clone(),
+                chi2_cov: o.stats.map(|s| (s.chi2, s.cov)),
+            })
+        } else {
+            let o = prob.fit(&rs.cfg);
+            Some(FitFacts {
+                ok: o.ok,
+                term: o.termination.clone(),
+                nfev: o.nfev,
+                params: o.fin.params.clone(),
+                coeffs: o.fin.coeffs.clone(),
+                chi2_cov: None,
+            })
+        }
+    })
+}
+fn rel_close<T: Sc>(a: &[T], b: &[T], tol: f64) -> f64 {
+    if a.len() != b.len() {
+        return f64::INFINITY;
+    }
+    a.iter().zip(b.iter()).fold(0.0f64, |m, (x, y)| {
+        let (x, y) = (x.to64(), y.to64());
+        m.max((x - y).abs() / (1.0 + x.abs().max(y.abs())))
+    }) / tol
+}
+
+pub fn run_pairs(count: usize) -> Report {
+    let mut rep = Report::new();
+    let seed = seed_from_env();
+    let mut rng = StdRng::seed_from_u64(seed.wrapping_mul(2477));
+    for i in 0..count {
+        // certified regime: fits converge, so that end results can be compared
+        let base = exp_run::<f64>(i, true, &mut rng);
+        // ---- C11: sequential vs parallel, several pool sizes
+        {
+            let mut a = base.clone();
+            a.par = false;
+            let mut b = base.clone();
+            b.par = true;
+            b.threads = [1, 2, 3, 4, 8, 16][i % 6];
+            if let (Some(fa), Some(fb)) = (fit_facts(&a, false), fit_facts(&b, false)) {
+                let d = rel_close(&fa.params, &fb.params, 1e-8);
+                let dc = match (&fa.coeffs, &fb.coeffs) {
+                    (Some(x), Some(y)) => rel_close(x.as_slice(), y.as_slice(), 1e-8),
+                    (None, None) => 0.0,
+                    _ => f64::INFINITY,
+                };
+                rep.check("C11", fa.ok == fb.ok && fa.term == fb.term && d <= 1.0 && dc <= 1.0, d.max(dc) * 1e-8, || {
+                    json!({"what": "whole fit: parallel problem ends differently from the sequential one", "label": base.label, "threads": b.threads,
+                           "seq": [fa.ok, fa.term, fa.nfev], "par": [fb.ok, fb.term, fb.nfev], "dparams": d * 1e-8})
+                });
+                if fa.nfev == fb.nfev && bits_eq(&fa.params, &fb.params) {
+                    rep.count("c11_fit_bitwise_equal", 1);
+                } else {
+                    rep.count("c11_fit_drift", 1);
+                }
+            }
+        }
+        // ---- C06: weighted problem vs its row scaled unweighted twin (model rows and data pre-multiplied)
+        if let Some(w) = base.w.clone() {
+            let mut twin = base.clone();
+            twin.w = None;
+            twin.y = DMatrix::from_fn(base.y.nrows(), base.y.ncols(), |r, c| w[r] * base.y[(r, c)]);
+            twin.fam = base.fam.clone();
+            let fa = fit_facts(&base, true);
+            let fb = fit_facts_scaled(&twin, &w, true);
+            if let (Some(fa), Some(fb)) = (fa, fb) {
+                let d = rel_close(&fa.params, &fb.params, 1e-8);
+                let dc = match (&fa.coeffs, &fb.coeffs) {
+                    (Some(x), Some(y)) => rel_close(x.as_slice(), y.as_slice(), 1e-8),
+                    (None, None) => 0.0,
+                    _ => f64::INFINITY,
+                };
+                let ds = match (&fa.chi2_cov, &fb.chi2_cov) {
+                    (Some((c1, v1)), Some((c2, v2))) => rel_close(&[*c1], &[*c2], 1e-8).max({
+                        let sc = v1.iter().fold(0.0f64, |m, v| m.max(v.abs()));
+                        v1.iter().zip(v2.iter()).fold(0.0f64, |m, (x, y)| m.max((x - y).abs() / sc.max(1e-300))) / 1e-7
+                    }),
+                    (None, None) => 0.0,
+                    _ => f64::INFINITY,
+                };
+                rep.check("C06", fa.ok == fb.ok && d <= 1.0 && dc <= 1.0 && ds <= 1.0, d.max(dc) * 1e-8, || {
+                    json!({"what": "whole fit / statistics: weighted problem differs from its row-scaled unweighted twin", "label": base.label,
+                           "weighted": [fa.ok, fa.term, fa.nfev], "twin": [fb.ok, fb.term, fb.nfev], "dparams": d * 1e-8, "dcoeff": dc * 1e-8, "dstats": ds})
+                });
+            }
+        }
+        // ---- C07: permuting observation columns leaves the fitted alpha unchanged (optimizer accuracy)
+        if base.y.ncols() >= 2 {
+            let s = base.y.ncols();
+            let mut perm = base.clone();
+            perm.y = DMatrix::from_fn(base.y.nrows(), s, |r, c| base.y[(r, s - 1 - c)]);
+            if let (Some(fa), Some(fb)) = (fit_facts(&base, false), fit_facts(&perm, false)) {
+                let d = rel_close(&fa.params, &fb.params, 1e-6);
+                let dc = match (&fa.coeffs, &fb.coeffs) {
+                    (Some(x), Some(y)) => {
+                        let yp = DMatrix::from_fn(y.nrows(), y.ncols(), |r, c| y[(r, s - 1 - c)]);
+                        rel_close(x.as_slice(), yp.as_slice(), 1e-6)
+                    }
+                    (None, None) => 0.0,
+                    _ => f64::INFINITY,
+                };
+                rep.check("C07", fa.ok == fb.ok && d <= 1.0 && dc <= 1.0, d.max(dc) * 1e-6, || {
+                    json!({"what": "fitted parameters / coefficients change under a permutation of the observation columns", "label": base.label, "dparams": d * 1e-6, "dcoeff": dc * 1e-6})
+                });
+            }
+        }
+        rep.count("pairs", 1);
+    }
+    rep
+}
+
+/// fit of the row scaled twin: the model rows are multiplied by w
+fn fit_facts_scaled<T: Sc>(rs: &RunSpec<T>, w: &[T], stats: bool) -> Option<FitFacts<T>> {
+    let inner = ExpModel::new(&rs.fam, &rs.x, &rs.start);
+    let model = RowScaled { inner, w: w.to_vec() };
+    let prob = build_problem(model, rs.mrhs, rs.par, &rs.y, None, None).ok()?;
+    if stats && !rs.mrhs {
+        let o = prob.fit_stats(&rs.cfg, &[], &[])?;
+        Some(FitFacts {
+            ok: o.fit.ok,
+            term: o.fit.termination.clone(),
+            nfev: o.fit.nfev,
+            params: o.fit.fin.params.clone(),
+            coeffs: o.fit.fin.coeffs.clone(),
+            chi2_cov: o.stats.map(|s| (s.chi2, s.cov)),
+        })
+    } else {
+        let o = prob.fit(&rs.cfg);
+        Some(FitFacts {
+            ok: o.ok,
+            term: o.termination.clone(),
+            nfev: o.nfev,
+            params: o.fin.params.clone(),
+            coeffs: o.fin.coeffs.clone(),
+            chi2_cov: None,
+        })
+    }
+}
